@@ -3,7 +3,7 @@
     arithmetic, [sp_*] = the contract automaton over the log of recorded results). *)
 From EG.lib Require Import Base.
 From EG.model Require Import CB CBCheck.
-From EG.proofs Require Import CBProofsWin CBProofsRef CBProofs CBProofsChk.
+From EG.proofs Require Import CBProofsWin CBProofsRef CBProofs CBProofsChk CBProofsSound.
 Open Scope Z_scope.
 
 (** *** refinement: ring buffers = abstract views, concrete breaker = automaton *)
@@ -162,6 +162,118 @@ Theorem C08_checker_accepts_model : forall pol t0 ops,
 Proof. exact checker_accepts_model. Qed.
 Print Assumptions C08_checker_accepts_model.
 
+
+(** *** SOUNDNESS of the trace checker: what acceptance of an observed history means.
+
+    History-derived notions (proofs/CBProofsSound.v; defined from the raw history, newest
+    step first, not by running the checker): [cur] = (state, id) shown by the newest step
+    ((CLOSED,1) initially); [entry] = the newest step whose shown (state,id) differs from its
+    predecessor's, [entered] its clock (creation time in the initial epoch); [body] = the
+    steps after it; [epoch_results] = the results recorded without panic with the current id
+    in [body]; [trials] = acquisitions admitted in the epoch (entry step included).
+    [history_before k] = the first k steps.  [C08_epoch_split] / [C08_epoch_results_spec]
+    characterise these with explicit quantifiers. *)
+Theorem C08_epoch_split : forall rp,
+  (forall x, In x (body rp) -> shown x = cur rp) /\
+  match entry rp with
+  | Some e => exists older, rp = body rp ++ e :: older /\ shown e = cur rp /\ shown e <> cur older
+  | None => rp = body rp /\ cur rp = (Closed, 1)
+  end.
+Proof. exact epoch_split. Qed.
+Print Assumptions C08_epoch_split.
+
+Theorem C08_epoch_results_spec : forall pol id l e,
+  In e (results pol id l) <->
+  exists now err dur s i, In (ORec now id err dur, (false, s, i)) l /\ e = (sec_of now, classify pol err dur).
+Proof. exact results_spec. Qed.
+Print Assumptions C08_epoch_results_spec.
+
+(** every step of an accepted history satisfies its clause ([step_clause]: per state before
+    the step, what flag / next (state, id) it may show) *)
+Theorem C08_checker_sound : forall pol t0 ops obs,
+  chk_run pol (chk_init t0) ops obs = true ->
+  List.length ops = List.length obs /\
+  forall k o ob, nth_error ops k = Some o -> nth_error obs k = Some ob ->
+    step_clause pol t0 (history_before k ops obs) o ob.
+Proof. exact checker_sound. Qed.
+Print Assumptions C08_checker_sound.
+
+(** a call is short-circuited only while OPEN, or HALF_OPEN with the permitted number of
+    trials already admitted; while CLOSED every call passes; OPEN rejects until the wait elapsed *)
+Theorem C08_sound_short_circuit_only_when_open : forall pol t0 ops obs,
+  chk_run pol (chk_init t0) ops obs = true ->
+  forall k now flag s' i',
+  nth_error ops k = Some (OAcq now) -> nth_error obs k = Some (flag, s', i') ->
+  let h := history_before k ops obs in
+  (fst (cur h) = Closed -> flag = true /\ (s', i') = cur h) /\
+  (flag = false -> fst (cur h) = Open \/ (fst (cur h) = HalfOpen /\ p_perm pol <= trials h)) /\
+  (fst (cur h) = Open -> now - entered t0 h < p_wait pol -> flag = false /\ (s', i') = cur h).
+Proof. exact sound_short_circuit_only_when_open. Qed.
+Print Assumptions C08_sound_short_circuit_only_when_open.
+
+(** a CLOSED breaker opens at a step exactly when that step records, with the current id, a
+    result that brings the window (last slidingWindowSize results / results of the last
+    window seconds, of this epoch) to >= minimumNumberOfCalls with a rate >= its threshold *)
+Theorem C08_sound_opens_exactly_at_threshold : forall pol t0 ops obs,
+  chk_run pol (chk_init t0) ops obs = true ->
+  forall k o flag s' i', 0 < p_size pol ->
+  nth_error ops k = Some o -> nth_error obs k = Some (flag, s', i') ->
+  let h := history_before k ops obs in
+  fst (cur h) = Closed ->
+  (s' = Open <->
+   exists now id err dur, o = ORec now id err dur /\ id = snd (cur h) /\
+     let v := view (pol_kind pol) (sec_of now) ((sec_of now, classify pol err dur) :: epoch_results pol h) in
+     p_min pol <= Z.of_nat (List.length v) /\ tripped pol v) /\
+  (s' = Open -> i' = snd (cur h) + 1 /\ flag = false) /\
+  (s' <> Open -> (s', i') = cur h).
+Proof. exact sound_opens_exactly_at_threshold. Qed.
+Print Assumptions C08_sound_opens_exactly_at_threshold.
+
+(** after the wait the next call enters HALF_OPEN as the first trial; in HALF_OPEN a call is
+    admitted iff fewer than [permitted] were admitted in the epoch; maxWait reopens *)
+Theorem C08_sound_half_open_trials : forall pol t0 ops obs,
+  chk_run pol (chk_init t0) ops obs = true ->
+  forall k now flag s' i',
+  nth_error ops k = Some (OAcq now) -> nth_error obs k = Some (flag, s', i') ->
+  let h := history_before k ops obs in
+  (fst (cur h) = Open -> p_wait pol <= now - entered t0 h ->
+     flag = (0 <? p_perm pol) /\ (s', i') = (HalfOpen, snd (cur h) + 1)) /\
+  (fst (cur h) = HalfOpen ->
+     (flag = true <-> trials h < p_perm pol) /\
+     (flag = true -> (s', i') = cur h) /\
+     (flag = false -> maxwait_over pol t0 h now -> (s', i') = (Open, snd (cur h) + 1)) /\
+     (flag = false -> ~ maxwait_over pol t0 h now -> (s', i') = cur h)).
+Proof. exact sound_half_open_trials. Qed.
+Print Assumptions C08_sound_half_open_trials.
+
+(** ... and the trials' results decide *)
+Theorem C08_sound_trials_decide : forall pol t0 ops obs,
+  chk_run pol (chk_init t0) ops obs = true ->
+  forall k now id err dur flag s' i', 0 < p_perm pol ->
+  nth_error ops k = Some (ORec now id err dur) -> nth_error obs k = Some (flag, s', i') ->
+  let h := history_before k ops obs in
+  fst (cur h) = HalfOpen -> id = snd (cur h) ->
+  let v := view (KCount (p_perm pol)) (sec_of now) ((sec_of now, classify pol err dur) :: epoch_results pol h) in
+  let need := Z.min (p_min pol) (p_perm pol) in
+  flag = false /\
+  (Z.of_nat (List.length v) < need -> (s', i') = cur h) /\
+  (need <= Z.of_nat (List.length v) -> tripped pol v -> (s', i') = (Open, snd (cur h) + 1)) /\
+  (need <= Z.of_nat (List.length v) -> ~ tripped pol v -> (s', i') = (Closed, snd (cur h) + 1)).
+Proof. exact sound_trials_decide. Qed.
+Print Assumptions C08_sound_trials_decide.
+
+(** a result carrying an id that was shown at an earlier step [y] whose (state, id) the breaker
+    has since left changes nothing and never enters the window *)
+Theorem C08_sound_stale_results_no_effect : forall pol t0 ops obs,
+  chk_run pol (chk_init t0) ops obs = true ->
+  forall k now id err dur flag s' i' y,
+  nth_error ops k = Some (ORec now id err dur) -> nth_error obs k = Some (flag, s', i') ->
+  In y (history_before k ops obs) -> snd (shown y) = id -> shown y <> cur (history_before k ops obs) ->
+  id <> snd (cur (history_before k ops obs)) /\ flag = false /\ (s', i') = cur (history_before k ops obs) /\
+  epoch_results pol (history_before (S k) ops obs) = epoch_results pol (history_before k ops obs).
+Proof. exact sound_stale_results_no_effect. Qed.
+Print Assumptions C08_sound_stale_results_no_effect.
+
 (** *** wrapper and pool *)
 
 (** an admitted call records exactly one result, a failure iff the handler returned an error or
@@ -246,4 +358,29 @@ Proof.
     split; [vm_compute; reflexivity|]. vm_compute. reflexivity.
   - cbv zeta. split; [vm_compute; reflexivity|]. split; vm_compute; reflexivity.
   - cbv zeta. split; [vm_compute; reflexivity|]. vm_compute. discriminate.
+Qed.
+
+(** non-vacuity of the soundness theorems: the example history is accepted; position 3 is the
+    record that opens the breaker from CLOSED (window view of 2 results, 50% failures, minimum 2),
+    position 4 a call short-circuited while OPEN, position 5 a stale result (id 1, shown at
+    position 0, state since left), position 6 the call entering HALF_OPEN, position 8 a call
+    short-circuited in HALF_OPEN with both permits used, position 11 the deciding trial *)
+Example C08_checker_sound_nonvacuous :
+  let obs := sp_run ex_pol (sp_new ex_pol 500) ex_ops in
+  let h k := history_before k ex_ops obs in
+  chk_run ex_pol (chk_init 500) ex_ops obs = true /\
+  0 < p_size ex_pol /\ 0 < p_perm ex_pol /\
+  (cur (h 3%nat) = (Closed, 1) /\ nth_error obs 3%nat = Some (false, Open, 2) /\
+   epoch_results ex_pol (h 3%nat) = [(0, RFail)]) /\
+  (cur (h 4%nat) = (Open, 2) /\ nth_error obs 4%nat = Some (false, Open, 2) /\ entered 500 (h 4%nat) = 200 * ex_ms) /\
+  (nth_error ex_ops 5%nat = Some (ORec (1100 * ex_ms) 1 true 0) /\ In (OAcq 700, (true, Closed, 1)) (h 5%nat) /\
+   (Closed, 1) <> cur (h 5%nat)) /\
+  (cur (h 6%nat) = (Open, 2) /\ nth_error obs 6%nat = Some (true, HalfOpen, 3)) /\
+  (cur (h 8%nat) = (HalfOpen, 3) /\ trials (h 8%nat) = 2 /\ nth_error obs 8%nat = Some (false, HalfOpen, 3)) /\
+  (cur (h 11%nat) = (HalfOpen, 3) /\ nth_error obs 11%nat = Some (false, Closed, 4) /\
+   epoch_results ex_pol (h 11%nat) = [(3, RSucc)]).
+Proof.
+  cbv zeta. split; [vm_compute; reflexivity|]. split; [vm_compute; reflexivity|].
+  split; [vm_compute; reflexivity|].
+  repeat split; try (vm_compute; reflexivity); try (vm_compute; intuition congruence).
 Qed.
